@@ -587,7 +587,13 @@ def u_mustfail_mul(W, sk):
     X, Y = SL.lab(W, x), SL.lab(W, y)
     out = W.call(lambda: x * y)
     # wrong spec: y matched by axis position instead of by label
-    wrong = SL.Lab(W, ("a", "b"), {"a": D["a"], "b": D["b"]}, lambda asg: X.at(asg) * Y.at({"b": asg["a"], "a": asg["b"]}))
+    def swapped(asg):
+        try:
+            return X.at(asg) * Y.at({"b": asg["a"], "a": asg["b"]})
+        except IndexError:
+            return float("nan")  # (concrete dimensions of different lengths: the positional reading does not even exist)
+
+    wrong = SL.Lab(W, ("a", "b"), {"a": D["a"], "b": D["b"]}, swapped)
     SL.check_same_array(W, "mul(wrong spec)", out, wrong, hyp=(lambda asg: W.size_eq(W.size_of(D["a"]), W.size_of(D["b"]))) if False else None)
 
 
